@@ -9,6 +9,7 @@ package orda
 import (
 	"errors"
 
+	"github.com/orda-io/orda/client/pkg/model"
 	"github.com/orda-io/orda/client/pkg/vf"
 )
 
@@ -130,4 +131,87 @@ func VF_C03_InTransaction() {
 		n2, s2 := pendingOps(d)
 		check(n0, s0, n1, s1, n2, s2)
 	}
+}
+
+
+// VF_C15_FailInsideTx (C15, C09, C03): inside a transaction one call is refused
+// while it executes (removing a key that is not there), the body carries on with
+// valid calls and commits.  Every operation of the unit has its own identifier:
+// sequence numbers consecutive, clocks strictly increasing, no identifier used
+// twice; the replica that receives the unit ends equal.
+func VF_C15_FailInsideTx() {
+	kind := vf.Choice("datatype", 2)
+	where := vf.Choice("failing-call-position", 3) // before, between, after the valid calls
+	vf.Tag("datatype", kind)
+	check := func(ops []*model.Operation) {
+		vf.Reach("committed")
+		for i := 1; i < len(ops); i++ {
+			vf.Assert(ops[i].ID.Seq == ops[i-1].ID.Seq+1, "C15 sequence numbers of one client are consecutive")
+			vf.Assert(ops[i].ID.Lamport > ops[i-1].ID.Lamport, "C15 no identifier is used twice: clocks of one client strictly increase")
+		}
+	}
+	if kind == 0 {
+		m := vfNewMap()
+		_, _ = m.Put("a", "1")
+		err := m.Transaction("t", func(tx MapInTx) error {
+			if where == 0 {
+				_, e := tx.Remove("missing")
+				vf.Assert(e != nil, "C03 removing a missing key is refused")
+			}
+			_, e1 := tx.Put("b", "2")
+			if where == 1 {
+				_, e := tx.Remove("missing")
+				vf.Assert(e != nil, "C03 removing a missing key is refused")
+			}
+			_, e2 := tx.Put("c", "3")
+			if where == 2 {
+				_, e := tx.Remove("missing")
+				vf.Assert(e != nil, "C03 removing a missing key is refused")
+			}
+			vf.Assert(e1 == nil && e2 == nil, "C03 valid calls succeed")
+			return nil
+		})
+		vf.Assert(err == nil, "C09 the transaction commits")
+		_, e3 := m.Put("d", "4")
+		vf.Assert(e3 == nil, "C03 valid call succeeds")
+		ops := m.CreatePushPullPack().Operations
+		check(ops)
+		rRaw, _ := newMap(vfBase("k", model.TypeOfDatatype_MAP, "BBBBBBBBBBBBBBBB"), nil, nil)
+		r := rRaw.(*ordaMap)
+		_, re := r.ReceiveRemoteModelOperations(ops, false)
+		vf.Assert(re == nil && jsonDeepEq(r.ToJSON(), m.ToJSON()), "C09/C14 the unit applies on another replica with the same effect")
+		return
+	}
+	d := vfNewDocSimple()
+	_, _ = d.PutToObject("a", []interface{}{"a1"})
+	err := d.Transaction("t", func(tx DocumentInTx) error {
+		if where == 0 {
+			_, e := tx.DeleteInObject("missing")
+			vf.Assert(e != nil, "C03 deleting a missing key is refused")
+		}
+		_, e1 := tx.PutToObject("b", []interface{}{"b1"})
+		if where == 1 {
+			_, e := tx.DeleteInObject("missing")
+			vf.Assert(e != nil, "C03 deleting a missing key is refused")
+		}
+		_, e2 := tx.PutToObject("c", []interface{}{"c1"})
+		if where == 2 {
+			_, e := tx.DeleteInObject("missing")
+			vf.Assert(e != nil, "C03 deleting a missing key is refused")
+		}
+		vf.Assert(e1 == nil && e2 == nil, "C03 valid calls succeed")
+		return nil
+	})
+	vf.Assert(err == nil, "C09 the transaction commits")
+	arrA, _ := d.GetFromObject("a")
+	_, e3 := arrA.InsertToArray(0, "NEW")
+	vf.Assert(e3 == nil, "C03 valid call succeeds")
+	ops := d.CreatePushPullPack().Operations
+	check(ops)
+	want := map[string]interface{}{"a": []interface{}{"NEW", "a1"}, "b": []interface{}{"b1"}, "c": []interface{}{"c1"}}
+	vf.Assert(jsonDeepEq(d.ToJSON(), want), "C15 containers created in one transaction are distinct: an insert lands in the array it addresses")
+	rRaw, _ := newDocument(vfBase("k", model.TypeOfDatatype_DOCUMENT, "BBBBBBBBBBBBBBBB"), nil, nil)
+	r := rRaw.(*document)
+	_, re := r.ReceiveRemoteModelOperations(ops, false)
+	vf.Assert(re == nil && jsonDeepEq(r.ToJSON(), want), "C09/C14 the unit applies on another replica with the same effect")
 }
